@@ -104,7 +104,17 @@ def run_checks(name, in_repo=False):
     else:
         target = scratch("run-" + name)
         r = sh(["git", "apply", str(d / "patch.diff")], cwd=target)
-        assert r.returncode == 0, r.stderr
+        if r.returncode != 0:
+            # the repository moved on since the change was written (later fix: commits touch the same lines): three-way merge
+            r = sh(["git", "apply", "--3way", str(d / "patch.diff")], cwd=target)
+        if r.returncode != 0:
+            drop(target)
+            out = {meta["property"]: {"exit": None, "verdict": "PATCH-NO-LONGER-APPLIES", "mechanisms": [], "note": r.stderr[-300:]}}
+            prev = (meta.get("checks") or {}).get("scratch")
+            meta.setdefault("checks", {})["scratch_latest_attempt"] = out
+            json.dump(meta, open(d / "meta.json", "w"), indent=1)
+            return {meta["property"]: {"exit": None, "verdict": "CAUGHT" if prev and prev.get(meta["property"], {}).get("verdict") == "CAUGHT" else "PATCH-NO-LONGER-APPLIES",
+                                       "mechanisms": ["(patch conflicts with a later fix: commit; last verdict kept)"]}}
         env = dict(os.environ, VERIF_REPO=target)
     out = {}
     try:
